@@ -2,6 +2,11 @@ package checks
 
 // C09 — a builder option sets exactly its target; invalid input is reported,
 // valid input never.
+//
+// This file: the program model, the oracle and the test. c09_families_test.go:
+// what is done to the drawn model and which veneers are drawn per family
+// (constant objects, alias objects, omitted builders, options rewritten into
+// arguments / per-field options).
 
 import (
 	"encoding/json"
@@ -24,7 +29,9 @@ type c09Program struct {
 	// Invalid: a call carries a constraint-violating argument (itself or in a
 	// nested builder): the program must be reported
 	Invalid string `json:"invalid,omitempty"`
-	// Kind: single | sequence | nested | nested-list | nested-map | violation | nested-violation
+	// Kind: baseline | single | sequence | nested-ref | nested-array | nested-map |
+	// violation | violation-in-collection | nested-violation | copied-option |
+	// merged-option... | object... | object-violation | rewritten-...
 	Kind string `json:"kind"`
 }
 
@@ -38,12 +45,21 @@ type c09Call struct {
 	// Nested programs (one for a reference, several for an array / a map)
 	Nested     []c09Program `json:"nested,omitempty"`
 	NestedKeys []string     `json:"nested_keys,omitempty"`
-	Shape      string       `json:"shape,omitempty"` // "" | ref | array | map
+	// Shape: "" | ref | array | map (nested builders) | obj | obj-array | obj-map
+	// (the builder of the referred object is omitted by a veneer: the option
+	// takes the plain object(s); the nested programs then DESCRIBE the object:
+	// what the type's constructor makes, with each call's value written)
+	Shape string `json:"shape,omitempty"`
 	// Path: for an option merged into this builder from the builder of a nested
-	// object (merge_into veneer): the fields leading to that object, and the
-	// definitions they refer to
+	// object (merge_into veneer), or rewritten to write the fields of a nested
+	// object (struct_fields_as_arguments / _as_options): the fields leading to
+	// that object, and the definitions they refer to
 	Path     []string `json:"path,omitempty"`
 	PathDefs []string `json:"path_defs,omitempty"`
+	// Args: the option takes several arguments (struct_fields_as_arguments):
+	// one entry per argument, each naming the field of the object at Path it is
+	// written to (Field + Value / Nested / Shape)
+	Args []c09Call `json:"args,omitempty"`
 }
 
 // c09Merge is one merge_into veneer (with, possibly, an initialize veneer
@@ -70,6 +86,12 @@ type c09Case struct {
 	Schema   schemaCase   `json:"schema"`
 	Programs []c09Program `json:"programs"`
 	Merges   []c09Merge   `json:"merges,omitempty"`
+	// Family: which model / veneer family the case was drawn from
+	Family string `json:"family,omitempty"`
+	// Omitted: definitions whose builder an `omit` veneer removes
+	Omitted []string `json:"omitted,omitempty"`
+	// GoOnly: the Python side is not driven (alias objects: see c09Objects)
+	GoOnly bool `json:"go_only,omitempty"`
 }
 
 type c09Batch struct {
@@ -78,43 +100,142 @@ type c09Batch struct {
 
 var c09Output = e2.OutputSpec{Types: true, Builders: true, Go: &e2.GoFlags{JSON: true}, Python: &e2.PyFlags{JSON: true}}
 
-// c09Supported tells how a field's option can be driven.
-func c09Supported(m *smodel.Model, f smodel.Field) (shape string, target string, ok bool) {
-	return c09SupportedIn(m, f, map[string]bool{})
+// c09Ctx is the model plus what the drawn veneers did to its builders.
+type c09Ctx struct {
+	m *smodel.Model
+	// omitted: no builder (omit veneer): options take the plain object
+	omitted map[string]bool
+	// rewrites: "Def.field" -> the option of that field was rewritten
+	rewrites map[string]*c09Rewrite
 }
 
-func c09SupportedIn(m *smodel.Model, f smodel.Field, visiting map[string]bool) (shape string, target string, ok bool) {
+func newC09Ctx(m *smodel.Model, omitted []string) *c09Ctx {
+	x := &c09Ctx{m: m, omitted: map[string]bool{}, rewrites: map[string]*c09Rewrite{}}
+	for _, o := range omitted {
+		x.omitted[o] = true
+	}
+	return x
+}
+
+// root follows alias definitions (`XAlias: X`) to the definition they stand for.
+func (x *c09Ctx) root(def string) string {
+	for hops := 0; hops < 8; hops++ {
+		d := x.m.Def(def)
+		if d == nil || d.Type.Kind != smodel.KRef || d.Type.Nullable || d.Type.Const != nil {
+			return def
+		}
+		def = d.Type.Ref
+	}
+	return def
+}
+
+// structOf: the struct a definition is (directly, or as an alias of one).
+func (x *c09Ctx) structOf(def string) *smodel.T {
+	d := x.m.Def(x.root(def))
+	if d == nil || d.Type.Kind != smodel.KStruct {
+		return nil
+	}
+	return &d.Type
+}
+
+func (x *c09Ctx) fields(def string) []smodel.Field {
+	if st := x.structOf(def); st != nil {
+		return st.Fields
+	}
+	return nil
+}
+
+func (x *c09Ctx) field(def, name string) *smodel.Field {
+	fields := x.fields(def)
+	for i := range fields {
+		if fields[i].Name == name {
+			return &fields[i]
+		}
+	}
+	return nil
+}
+
+// hasBuilder: cog derives a builder for the definition and no veneer omits it.
+func (x *c09Ctx) hasBuilder(def string) bool {
+	return x.structOf(def) != nil && !x.omitted[def]
+}
+
+// builderDefs: the definitions programs are drawn for.
+func (x *c09Ctx) builderDefs() []string {
+	var out []string
+	for _, d := range x.m.Defs {
+		if x.hasBuilder(d.Name) {
+			out = append(out, d.Name)
+		}
+	}
+	return out
+}
+
+// constOf: the constant a field of this type always holds: a literal constant,
+// or a reference to a constant object (`type: OptionsType`, `OptionsType: "x"`).
+func (x *c09Ctx) constOf(t smodel.T) (json.RawMessage, bool) {
+	for hops := 0; hops < 8; hops++ {
+		if t.Const != nil {
+			return *t.Const, true
+		}
+		if t.Kind != smodel.KRef {
+			return nil, false
+		}
+		d := x.m.Def(t.Ref)
+		if d == nil {
+			return nil, false
+		}
+		t = d.Type
+	}
+	return nil, false
+}
+
+// c09Supported tells how a field's option can be driven.
+func c09Supported(x *c09Ctx, f smodel.Field) (shape string, target string, ok bool) {
+	return c09SupportedIn(x, f, map[string]bool{})
+}
+
+func c09SupportedIn(x *c09Ctx, f smodel.Field, visiting map[string]bool) (shape string, target string, ok bool) {
+	m := x.m
 	t := f.Type
-	if t.Const != nil {
+	if _, isConst := x.constOf(t); isConst {
 		return "", "", false
 	}
 	// a single-member enum is a constant for CUE (and gets no option)
 	if rt := m.Resolve(t); rt.Kind == smodel.KEnum && len(rt.Members) < 2 {
 		return "", "", false
 	}
-	structWithBuilder := func(x smodel.T) (string, bool) {
-		if x.Kind != smodel.KRef || x.Nullable {
+	// structRef: a reference to a struct definition (possibly through alias
+	// objects); the option takes its builder, or the object when the builder
+	// is omitted
+	structRef := func(r smodel.T) (string, bool) {
+		if r.Kind != smodel.KRef || r.Nullable {
 			return "", false
 		}
-		d := m.Def(x.Ref)
-		if d == nil || d.Type.Kind != smodel.KStruct {
+		if x.structOf(r.Ref) == nil {
 			return "", false
 		}
 		// the nested object must be completable, or its builder fails
-		if !c09Completable(m, x.Ref, visiting) {
+		if !c09Completable(x, r.Ref, visiting) {
 			return "", false
 		}
-		return x.Ref, true
+		return r.Ref, true
 	}
-	scalarLike := func(x smodel.T) bool {
-		switch x.Kind {
+	scalarLike := func(s smodel.T) bool {
+		switch s.Kind {
 		case smodel.KBool, smodel.KString, smodel.KInt, smodel.KFloat, smodel.KDateTime, smodel.KEnum:
-			return x.Const == nil
+			return s.Const == nil
 		case smodel.KRef:
-			d := m.Def(x.Ref)
+			d := m.Def(s.Ref)
 			return d != nil && d.Type.Kind == smodel.KEnum
 		}
 		return false
+	}
+	prefix := func(name string) string {
+		if x.omitted[name] {
+			return "obj"
+		}
+		return ""
 	}
 	switch {
 	case scalarLike(t):
@@ -126,15 +247,24 @@ func c09SupportedIn(m *smodel.Model, f smodel.Field, visiting map[string]bool) (
 	case (t.Kind == smodel.KArray || t.Kind == smodel.KMap) && (t.Elem.Kind == smodel.KArray || t.Elem.Kind == smodel.KMap) && !t.Elem.Nullable && scalarLike(*t.Elem.Elem) && !t.Elem.Elem.Nullable:
 		return "", "", true // a collection of collections of scalars is a plain value
 	case t.Kind == smodel.KRef:
-		if name, ok := structWithBuilder(t); ok {
+		if name, ok := structRef(t); ok {
+			if prefix(name) != "" {
+				return "obj", name, true
+			}
 			return "ref", name, true
 		}
 	case t.Kind == smodel.KArray:
-		if name, ok := structWithBuilder(*t.Elem); ok {
+		if name, ok := structRef(*t.Elem); ok {
+			if prefix(name) != "" {
+				return "obj-array", name, true
+			}
 			return "array", name, true
 		}
 	case t.Kind == smodel.KMap:
-		if name, ok := structWithBuilder(*t.Elem); ok {
+		if name, ok := structRef(*t.Elem); ok {
+			if prefix(name) != "" {
+				return "obj-map", name, true
+			}
 			return "map", name, true
 		}
 	}
@@ -148,23 +278,38 @@ func rawOf(v any) json.RawMessage {
 
 // c09Baseline sets every required field that has an option to a valid value,
 // so that Build() has no reason to fail.
-func c09Baseline(rt *rapid.T, m *smodel.Model, def string, depth int) []c09Call {
-	d := m.Def(def)
+func c09Baseline(rt *rapid.T, x *c09Ctx, def string, depth int) []c09Call {
 	var calls []c09Call
-	for _, f := range d.Type.Fields {
+	for _, f := range x.fields(def) {
 		if !f.Required {
 			continue
 		}
-		if call, ok := c09ValidCall(rt, m, f, depth); ok {
+		if call, ok := c09ValidCall(rt, x, def, f, depth); ok {
 			calls = append(calls, call)
 		}
 	}
 	return calls
 }
 
-// c09ValidCall draws a valid argument for the option of field f.
-func c09ValidCall(rt *rapid.T, m *smodel.Model, f smodel.Field, depth int) (c09Call, bool) {
-	shape, target, ok := c09Supported(m, f)
+// c09ValidCall draws a valid call of the option of field f of definition def.
+func c09ValidCall(rt *rapid.T, x *c09Ctx, def string, f smodel.Field, depth int) (c09Call, bool) {
+	if rw := x.rewrites[def+"."+f.Name]; rw != nil {
+		// the option was rewritten: it takes the fields of the object as
+		// arguments; or it was replaced by one option per field (those are only
+		// applied to optional fields and driven by their own programs)
+		if rw.Kind != "arguments" {
+			return c09Call{}, false
+		}
+		return c09RewrittenCall(rt, x, rw, depth)
+	}
+	return c09PlainCall(rt, x, f, depth)
+}
+
+// c09PlainCall draws a valid argument for a field: what the option cog derives
+// from the field takes.
+func c09PlainCall(rt *rapid.T, x *c09Ctx, f smodel.Field, depth int) (c09Call, bool) {
+	m := x.m
+	shape, target, ok := c09Supported(x, f)
 	if !ok {
 		return c09Call{}, false
 	}
@@ -182,31 +327,31 @@ func c09ValidCall(rt *rapid.T, m *smodel.Model, f smodel.Field, depth int) (c09C
 			v = map[string]any{"k": smodel.DrawValue(rt, m, *nonNull.Elem)}
 		}
 		return c09Call{Field: f.Name, Value: rawOf(v)}, true
-	case "ref":
+	case "ref", "obj":
 		// a required reference is always followed (the models only recurse
 		// through optional fields, arrays and maps): leaving it out would make
 		// the nested object invalid
 		if depth > 1 && !f.Required {
 			return c09Call{}, false
 		}
-		return c09Call{Field: f.Name, Shape: "ref", Nested: []c09Program{{Def: target, Calls: c09NestedCalls(rt, m, target, depth+1)}}}, true
-	case "array":
+		return c09Call{Field: f.Name, Shape: shape, Nested: []c09Program{{Def: target, Calls: c09NestedCalls(rt, x, target, depth+1)}}}, true
+	case "array", "obj-array":
 		if depth > 1 {
 			return c09Call{}, false
 		}
 		n := rapid.IntRange(1, 2).Draw(rt, "nestedlen")
-		call := c09Call{Field: f.Name, Shape: "array"}
+		call := c09Call{Field: f.Name, Shape: shape}
 		for i := 0; i < n; i++ {
-			call.Nested = append(call.Nested, c09Program{Def: target, Calls: c09NestedCalls(rt, m, target, depth+1)})
+			call.Nested = append(call.Nested, c09Program{Def: target, Calls: c09NestedCalls(rt, x, target, depth+1)})
 		}
 		return call, true
-	case "map":
+	case "map", "obj-map":
 		if depth > 1 {
 			return c09Call{}, false
 		}
-		call := c09Call{Field: f.Name, Shape: "map", NestedKeys: []string{"first", "other key"}}
+		call := c09Call{Field: f.Name, Shape: shape, NestedKeys: []string{"first", "other key"}}
 		for range call.NestedKeys {
-			call.Nested = append(call.Nested, c09Program{Def: target, Calls: c09NestedCalls(rt, m, target, depth+1)})
+			call.Nested = append(call.Nested, c09Program{Def: target, Calls: c09NestedCalls(rt, x, target, depth+1)})
 		}
 		return call, true
 	}
@@ -214,13 +359,13 @@ func c09ValidCall(rt *rapid.T, m *smodel.Model, f smodel.Field, depth int) (c09C
 }
 
 // c09NestedCalls: the baseline of the nested object plus some optional fields.
-func c09NestedCalls(rt *rapid.T, m *smodel.Model, def string, depth int) []c09Call {
-	calls := c09Baseline(rt, m, def, depth)
-	for _, f := range m.Def(def).Type.Fields {
+func c09NestedCalls(rt *rapid.T, x *c09Ctx, def string, depth int) []c09Call {
+	calls := c09Baseline(rt, x, def, depth)
+	for _, f := range x.fields(def) {
 		if f.Required || rapid.IntRange(0, 2).Draw(rt, "nestedoptional") != 0 {
 			continue
 		}
-		if call, ok := c09ValidCall(rt, m, f, depth); ok {
+		if call, ok := c09ValidCall(rt, x, def, f, depth); ok {
 			calls = append(calls, call)
 		}
 	}
@@ -235,50 +380,79 @@ func c09Wrap(t smodel.T, inner any) any {
 	return []any{inner}
 }
 
+// c09Rules collects veneer rules per package.
+type c09Rules struct {
+	option  map[string][]string
+	builder map[string][]string
+}
+
+func newC09Rules() *c09Rules {
+	return &c09Rules{option: map[string][]string{}, builder: map[string][]string{}}
+}
+
+func (r *c09Rules) files() []string {
+	pkgSet := map[string]bool{}
+	for pkg := range r.option {
+		pkgSet[pkg] = true
+	}
+	for pkg := range r.builder {
+		pkgSet[pkg] = true
+	}
+	var files []string
+	for _, pkg := range keysOf(pkgSet) {
+		file := fmt.Sprintf("language: all\npackage: %s\n", pkg)
+		if len(r.builder[pkg]) > 0 {
+			file += "builders:\n" + strings.Join(r.builder[pkg], "")
+		}
+		if len(r.option[pkg]) > 0 {
+			file += "options:\n" + strings.Join(r.option[pkg], "")
+		}
+		files = append(files, file)
+	}
+	return files
+}
+
 // drawC09Veneers copies one constrained option per struct definition and
 // renames the argument of the copy; and merges the builder of a nested object
 // (one or two references away) into the builder of its parent, possibly with a
 // constant written below the same path by the parent's constructor.
-func drawC09Veneers(rt *rapid.T, sc schemaCase) ([]string, map[string]string, []c09Merge) {
+func drawC09Veneers(rt *rapid.T, sc schemaCase, x *c09Ctx, rules *c09Rules) (map[string]string, []c09Merge) {
 	m := sc.Model
-	copies := map[string]string{}         // "Def.field" -> name of the copy
-	optionRules := map[string][]string{}  // per package
-	builderRules := map[string][]string{} // per package
+	copies := map[string]string{} // "Def.field" -> name of the copy
 	var merges []c09Merge
-	for _, d := range m.Defs {
-		if d.Type.Kind != smodel.KStruct {
-			continue
-		}
-		for _, f := range d.Type.Fields {
-			if _, _, ok := c09Supported(m, f); !ok || len(smodel.Violations(m.Resolve(f.Type))) == 0 {
+	for _, def := range x.builderDefs() {
+		for _, f := range x.fields(def) {
+			if _, _, ok := c09Supported(x, f); !ok || len(smodel.Violations(m.Resolve(f.Type))) == 0 {
 				continue
 			}
 			if rapid.Bool().Draw(rt, "copyoption") {
-				copies[d.Name+"."+f.Name] = f.Name + "Copy"
-				pkg := sc.pkgOf(d.Name)
-				optionRules[pkg] = append(optionRules[pkg], fmt.Sprintf("  - duplicate: {by_name: %s.%s, as: %sCopy}\n  - rename_arguments: {by_name: %s.%sCopy, as: [renamedArg]}\n", d.Name, f.Name, f.Name, d.Name, f.Name))
+				copies[def+"."+f.Name] = f.Name + "Copy"
+				pkg := sc.pkgOf(def)
+				rules.option[pkg] = append(rules.option[pkg], fmt.Sprintf("  - duplicate: {by_name: %s.%s, as: %sCopy}\n  - rename_arguments: {by_name: %s.%sCopy, as: [renamedArg]}\n", def, f.Name, f.Name, def, f.Name))
 				break
 			}
 		}
 	}
 	// merges: Dest.f -> E (depth 1), Dest.f -> E.g -> F (depth 2)
-	for _, d := range m.Defs {
-		if d.Type.Kind != smodel.KStruct {
-			continue
-		}
+	for _, def := range x.builderDefs() {
 		var candidates []c09Merge
-		for _, f := range d.Type.Fields {
-			shape, e, ok := c09Supported(m, f)
-			if !ok || shape != "ref" || e == d.Name {
+		for _, f := range x.fields(def) {
+			shape, e, ok := c09Supported(x, f)
+			if !ok || shape != "ref" || x.root(e) == x.root(def) {
 				continue
 			}
-			candidates = append(candidates, c09Merge{Dest: d.Name, Source: e, Path: []string{f.Name}, PathDefs: []string{e}})
-			for _, g := range m.Def(e).Type.Fields {
-				shape2, target2, ok2 := c09Supported(m, g)
-				if !ok2 || shape2 != "ref" || target2 == d.Name || target2 == e {
+			candidates = append(candidates, c09Merge{Dest: def, Source: e, Path: []string{f.Name}, PathDefs: []string{e}})
+			if x.root(e) != e {
+				// cog refuses (with an error) to make a path that goes THROUGH a
+				// field typed by an alias object: only the last step may be one
+				continue
+			}
+			for _, g := range x.fields(e) {
+				shape2, target2, ok2 := c09Supported(x, g)
+				if !ok2 || shape2 != "ref" || x.root(target2) == x.root(def) || x.root(target2) == x.root(e) {
 					continue
 				}
-				candidates = append(candidates, c09Merge{Dest: d.Name, Source: target2, Path: []string{f.Name, g.Name}, PathDefs: []string{e, target2}})
+				candidates = append(candidates, c09Merge{Dest: def, Source: target2, Path: []string{f.Name, g.Name}, PathDefs: []string{e, target2}})
 			}
 		}
 		var usable []c09Merge
@@ -296,7 +470,6 @@ func drawC09Veneers(rt *rapid.T, sc schemaCase) ([]string, map[string]string, []
 		if rapid.Bool().Draw(rt, "mergepick") {
 			mg = rapid.SampledFrom(usable).Draw(rt, "mergewhich")
 		}
-		src := m.Def(mg.Source)
 		// a constructor that writes below the path (an initialize veneer, or the
 		// constants of the source object, which merge_into copies) creates the
 		// objects on the way with their types' defaults; if those are not valid
@@ -304,12 +477,12 @@ func drawC09Veneers(rt *rapid.T, sc schemaCase) ([]string, map[string]string, []
 		// alone can be built: such veneers would make every other program of the
 		// destination "refused" for a reason that is the veneer author's
 		zeroValid := true
-		for _, def := range mg.PathDefs {
-			zeroValid = zeroValid && c09ZeroValid(m, def, map[string]bool{})
+		for _, pd := range mg.PathDefs {
+			zeroValid = zeroValid && c09ZeroValid(x, pd, map[string]bool{})
 		}
 		sourceHasConst := false
-		for _, sf := range src.Type.Fields {
-			if sf.Type.Const != nil || (m.Resolve(sf.Type).Kind == smodel.KEnum && len(m.Resolve(sf.Type).Members) < 2) {
+		for _, sf := range x.fields(mg.Source) {
+			if _, isConst := x.constOf(sf.Type); isConst || (m.Resolve(sf.Type).Kind == smodel.KEnum && len(m.Resolve(sf.Type).Members) < 2) {
 				sourceHasConst = true
 			}
 		}
@@ -317,14 +490,18 @@ func drawC09Veneers(rt *rapid.T, sc schemaCase) ([]string, map[string]string, []
 			continue
 		}
 		var renames []string
-		for _, sf := range src.Type.Fields {
+		for _, sf := range x.fields(mg.Source) {
 			renames = append(renames, fmt.Sprintf("%s: %s", sf.Name, mg.optionName(sf.Name)))
 		}
-		pkg := sc.pkgOf(d.Name)
+		pkg := sc.pkgOf(def)
 		rule := fmt.Sprintf("  - merge_into: {destination: %s, source: %s, under_path: %s, rename_options: {%s}}\n", mg.Dest, mg.Source, strings.Join(mg.Path, "."), strings.Join(renames, ", "))
 		// a constant written by the constructor below the same path
-		if zeroValid && rapid.IntRange(0, 2).Draw(rt, "initialize") != 0 {
-			for _, sf := range src.Type.Fields {
+		throughAlias := false
+		for _, pd := range mg.PathDefs {
+			throughAlias = throughAlias || x.root(pd) != pd
+		}
+		if zeroValid && !throughAlias && rapid.IntRange(0, 2).Draw(rt, "initialize") != 0 {
+			for _, sf := range x.fields(mg.Source) {
 				k := sf.Type.Kind
 				if sf.Type.Const != nil || sf.Type.Nullable || (k != smodel.KBool && k != smodel.KString && k != smodel.KInt && k != smodel.KFloat) {
 					continue
@@ -335,59 +512,35 @@ func drawC09Veneers(rt *rapid.T, sc schemaCase) ([]string, map[string]string, []
 				break
 			}
 		}
-		builderRules[pkg] = append(builderRules[pkg], rule)
+		rules.builder[pkg] = append(rules.builder[pkg], rule)
 		merges = append(merges, mg)
 	}
-	var files []string
-	pkgSet := map[string]bool{}
-	for pkg := range optionRules {
-		pkgSet[pkg] = true
-	}
-	for pkg := range builderRules {
-		pkgSet[pkg] = true
-	}
-	var pkgs []string
-	for pkg := range pkgSet {
-		pkgs = append(pkgs, pkg)
-	}
-	sort.Strings(pkgs)
-	for _, pkg := range pkgs {
-		file := fmt.Sprintf("language: all\npackage: %s\n", pkg)
-		if len(builderRules[pkg]) > 0 {
-			file += "builders:\n" + strings.Join(builderRules[pkg], "")
-		}
-		if len(optionRules[pkg]) > 0 {
-			file += "options:\n" + strings.Join(optionRules[pkg], "")
-		}
-		files = append(files, file)
-	}
-	return files, copies, merges
+	return copies, merges
 }
 
 // c09ZeroValid: the object the type's constructor makes is valid as it stands:
 // no required field is bounded, and required references lead to such objects.
-func c09ZeroValid(m *smodel.Model, def string, visiting map[string]bool) bool {
+func c09ZeroValid(x *c09Ctx, def string, visiting map[string]bool) bool {
 	if visiting[def] {
 		return true
 	}
 	visiting[def] = true
 	defer delete(visiting, def)
-	d := m.Def(def)
-	if d == nil || d.Type.Kind != smodel.KStruct {
+	if x.structOf(def) == nil {
 		return false
 	}
-	for _, f := range d.Type.Fields {
-		if !f.Required || f.Type.Const != nil {
+	for _, f := range x.fields(def) {
+		if _, isConst := x.constOf(f.Type); !f.Required || isConst {
 			continue
 		}
-		rt := m.Resolve(f.Type)
+		rt := x.m.Resolve(f.Type)
 		switch rt.Kind {
 		case smodel.KBool, smodel.KString, smodel.KInt, smodel.KFloat, smodel.KEnum, smodel.KDateTime:
 			if len(smodel.Violations(rt)) > 0 {
 				return false
 			}
 		case smodel.KStruct:
-			if f.Type.Kind != smodel.KRef || !c09ZeroValid(m, f.Type.Ref, visiting) {
+			if f.Type.Kind != smodel.KRef || !c09ZeroValid(x, f.Type.Ref, visiting) {
 				return false
 			}
 		default:
@@ -397,9 +550,8 @@ func c09ZeroValid(m *smodel.Model, def string, visiting map[string]bool) bool {
 	return true
 }
 
-// c09MergedCalls: calls of the options merged into the destination builder that
-// give every required field of the source object a valid value.
-func c09MergedCalls(rt *rapid.T, m *smodel.Model, mg c09Merge, calls []c09Call) []c09Call {
+// c09MergedCalls: the calls as calls of the options merged into the destination.
+func c09MergedCalls(mg c09Merge, calls []c09Call) []c09Call {
 	var out []c09Call
 	for _, c := range calls {
 		c.Option = mg.optionName(c.Field)
@@ -410,21 +562,16 @@ func c09MergedCalls(rt *rapid.T, m *smodel.Model, mg c09Merge, calls []c09Call) 
 }
 
 // c09MergePrograms: programs driving the options a merge_into veneer added.
-func c09MergePrograms(rt *rapid.T, m *smodel.Model, mg c09Merge, base []c09Call) []c09Program {
+func c09MergePrograms(rt *rapid.T, x *c09Ctx, mg c09Merge, base []c09Call) []c09Program {
+	m := x.m
 	var out []c09Program
-	src := m.Def(mg.Source)
-	var first *smodel.Field
-	for i, f := range m.Def(mg.Dest).Type.Fields {
-		if f.Name == mg.Path[0] {
-			first = &m.Def(mg.Dest).Type.Fields[i]
-		}
-	}
+	first := x.field(mg.Dest, mg.Path[0])
 	if first == nil {
 		return nil
 	}
 	hasRequired := func(def string) bool {
-		for _, f := range m.Def(def).Type.Fields {
-			if f.Required && f.Type.Const == nil {
+		for _, f := range x.fields(def) {
+			if _, isConst := x.constOf(f.Type); f.Required && !isConst {
 				return true
 			}
 		}
@@ -441,24 +588,24 @@ func c09MergePrograms(rt *rapid.T, m *smodel.Model, mg c09Merge, base []c09Call)
 			needs = needs || hasRequired(def)
 		}
 		if needs || force {
-			if call, ok := c09ValidCall(rt, m, *first, 0); ok {
+			if call, ok := c09ValidCall(rt, x, mg.Dest, *first, 0); ok {
 				calls = append(calls, call)
 				replaced = true
 			} else if needs {
 				return nil, false
 			}
 		}
-		return append(calls, c09MergedCalls(rt, m, mg, c09Baseline(rt, m, mg.Source, 1))...), replaced
+		return append(calls, c09MergedCalls(mg, c09Baseline(rt, x, mg.Source, 1))...), replaced
 	}
-	for _, sf := range src.Type.Fields {
-		if _, _, ok := c09Supported(m, sf); !ok {
+	for _, sf := range x.fields(mg.Source) {
+		if _, _, ok := c09Supported(x, sf); !ok {
 			continue
 		}
-		call, ok := c09ValidCall(rt, m, sf, 1)
+		call, ok := c09ValidCall(rt, x, mg.Source, sf, 1)
 		if !ok {
 			continue
 		}
-		merged := c09MergedCalls(rt, m, mg, []c09Call{call})[0]
+		merged := c09MergedCalls(mg, []c09Call{call})[0]
 		for _, force := range []bool{false, true} {
 			calls, replaced := prefix(force)
 			if calls == nil || (force && !replaced) {
@@ -472,7 +619,7 @@ func c09MergePrograms(rt *rapid.T, m *smodel.Model, mg c09Merge, base []c09Call)
 		}
 		// the ancestor replaced after the merged option: the last write wins
 		if calls, _ := prefix(false); calls != nil {
-			if repl, ok := c09ValidCall(rt, m, *first, 0); ok {
+			if repl, ok := c09ValidCall(rt, x, mg.Dest, *first, 0); ok {
 				out = append(out, c09Program{Def: mg.Dest, Calls: append(append(calls, merged), repl), Kind: "ancestor-replaced-after-merged-option"})
 			}
 		}
@@ -486,43 +633,92 @@ func c09MergePrograms(rt *rapid.T, m *smodel.Model, mg c09Merge, base []c09Call)
 	return out
 }
 
-// drawC09Programs draws the programs of one schema.
-func drawC09Programs(rt *rapid.T, m *smodel.Model, copies map[string]string, merges []c09Merge) []c09Program {
-	var out []c09Program
-	for _, d := range m.Defs {
-		if d.Type.Kind != smodel.KStruct {
+// c09Broken is a nested program with one violation somewhere inside.
+type c09Broken struct {
+	prog  c09Program
+	where string // field(.field):bound
+}
+
+// c09DeepViolations: copies of a (valid) nested program with one more call
+// that violates a bound of one of its fields (depth 0: one copy per field that
+// has bounds), or of a field of an object it refers to (depth 1).
+func c09DeepViolations(rt *rapid.T, x *c09Ctx, prog c09Program, depth int) []c09Broken {
+	m := x.m
+	var out []c09Broken
+	with := func(c c09Call) c09Program {
+		cp := prog
+		cp.Calls = append(append([]c09Call{}, prog.Calls...), c)
+		return cp
+	}
+	for _, nf := range x.fields(prog.Def) {
+		shape, target, ok := c09Supported(x, nf)
+		if !ok {
 			continue
 		}
-		base := c09Baseline(rt, m, d.Name, 0)
-		out = append(out, c09Program{Def: d.Name, Calls: base, Kind: "baseline"})
+		if depth > 0 {
+			if shape != "ref" && shape != "obj" {
+				continue
+			}
+			inner := c09Program{Def: target, Calls: c09Baseline(rt, x, target, 2)}
+			for _, b := range c09DeepViolations(rt, x, inner, depth-1) {
+				out = append(out, c09Broken{with(c09Call{Field: nf.Name, Shape: shape, Nested: []c09Program{b.prog}}), nf.Name + "." + b.where})
+				break
+			}
+			continue
+		}
+		for bound, bad := range smodel.Violations(m.Resolve(nf.Type)) {
+			out = append(out, c09Broken{with(c09Call{Field: nf.Name, Value: rawOf(bad)}), nf.Name + ":" + bound})
+			break
+		}
+	}
+	return out
+}
+
+// drawC09Programs draws the programs of one schema.
+func drawC09Programs(rt *rapid.T, x *c09Ctx, copies map[string]string, merges []c09Merge) []c09Program {
+	m := x.m
+	var out []c09Program
+	for _, def := range x.builderDefs() {
+		base := c09Baseline(rt, x, def, 0)
+		out = append(out, c09Program{Def: def, Calls: base, Kind: "baseline"})
+		withBase := func(calls ...c09Call) []c09Call {
+			return append(append([]c09Call{}, base...), calls...)
+		}
 		var driven []smodel.Field
-		for _, f := range d.Type.Fields {
-			if _, _, ok := c09Supported(m, f); ok {
+		for _, f := range x.fields(def) {
+			if _, _, ok := c09Supported(x, f); ok {
 				driven = append(driven, f)
 			}
 		}
 		for _, f := range driven {
-			call, ok := c09ValidCall(rt, m, f, 0)
+			if rw := x.rewrites[def+"."+f.Name]; rw != nil {
+				out = append(out, c09RewritePrograms(rt, x, rw, base)...)
+				continue
+			}
+			call, ok := c09ValidCall(rt, x, def, f, 0)
 			if !ok {
 				continue
 			}
 			kind := "single"
-			if call.Shape != "" {
+			switch {
+			case strings.HasPrefix(call.Shape, "obj"):
+				kind = "object" + strings.TrimPrefix(call.Shape, "obj")
+			case call.Shape != "":
 				kind = "nested-" + call.Shape
 			}
-			out = append(out, c09Program{Def: d.Name, Calls: append(append([]c09Call{}, base...), call), Kind: kind})
+			out = append(out, c09Program{Def: def, Calls: withBase(call), Kind: kind})
 			// constraint violations, directly
 			nonNull := m.Resolve(f.Type)
 			for bound, bad := range smodel.Violations(nonNull) {
-				out = append(out, c09Program{Def: d.Name, Calls: append(append([]c09Call{}, base...), c09Call{Field: f.Name, Value: rawOf(bad)}), Kind: "violation", Invalid: f.Name + ":" + bound})
+				out = append(out, c09Program{Def: def, Calls: withBase(c09Call{Field: f.Name, Value: rawOf(bad)}), Kind: "violation", Invalid: f.Name + ":" + bound})
 			}
 			// the copy of the option made by a veneer behaves like the original
-			if copyName, ok := copies[d.Name+"."+f.Name]; ok {
+			if copyName, ok := copies[def+"."+f.Name]; ok {
 				cp := call
 				cp.Option = copyName
-				out = append(out, c09Program{Def: d.Name, Calls: append(append([]c09Call{}, base...), cp), Kind: "copied-option"})
+				out = append(out, c09Program{Def: def, Calls: withBase(cp), Kind: "copied-option"})
 				for bound, bad := range smodel.Violations(nonNull) {
-					out = append(out, c09Program{Def: d.Name, Calls: append(append([]c09Call{}, base...), c09Call{Field: f.Name, Option: copyName, Value: rawOf(bad)}), Kind: "violation", Invalid: f.Name + "(copy):" + bound})
+					out = append(out, c09Program{Def: def, Calls: withBase(c09Call{Field: f.Name, Option: copyName, Value: rawOf(bad)}), Kind: "violation", Invalid: f.Name + "(copy):" + bound})
 				}
 			}
 			// violations inside collections: one element, off the diagonal of a
@@ -539,36 +735,37 @@ func drawC09Programs(rt *rapid.T, m *smodel.Model, copies map[string]string, mer
 						} else {
 							value = c09Wrap(nonNull, c09Wrap(inner, bad))
 						}
-						out = append(out, c09Program{Def: d.Name, Calls: append(append([]c09Call{}, base...), c09Call{Field: f.Name, Value: rawOf(value)}), Kind: "violation-in-collection", Invalid: f.Name + "[][]:" + bound})
+						out = append(out, c09Program{Def: def, Calls: withBase(c09Call{Field: f.Name, Value: rawOf(value)}), Kind: "violation-in-collection", Invalid: f.Name + "[][]:" + bound})
 					}
 				} else {
 					for bound, bad := range smodel.Violations(inner) {
-						out = append(out, c09Program{Def: d.Name, Calls: append(append([]c09Call{}, base...), c09Call{Field: f.Name, Value: rawOf(c09Wrap(nonNull, bad))}), Kind: "violation-in-collection", Invalid: f.Name + "[]:" + bound})
+						out = append(out, c09Program{Def: def, Calls: withBase(c09Call{Field: f.Name, Value: rawOf(c09Wrap(nonNull, bad))}), Kind: "violation-in-collection", Invalid: f.Name + "[]:" + bound})
 					}
 				}
 			}
-			// ... and inside a nested builder
+			// ... inside a nested builder; and inside a plain object (directly and
+			// one reference further down): there the builder of the parent is the
+			// only one that can report it
 			if call.Shape != "" {
-				target := call.Nested[0].Def
-				for _, nf := range m.Def(target).Type.Fields {
-					if _, _, ok := c09Supported(m, nf); !ok {
-						continue
-					}
-					for bound, bad := range smodel.Violations(m.Resolve(nf.Type)) {
+				last := call.Nested[len(call.Nested)-1]
+				depths := []int{0}
+				kind := "nested-violation"
+				if strings.HasPrefix(call.Shape, "obj") {
+					depths, kind = []int{0, 1}, "object-violation"
+				}
+				for _, depth := range depths {
+					for _, b := range c09DeepViolations(rt, x, last, depth) {
 						broken := call
 						broken.Nested = append([]c09Program{}, call.Nested...)
-						last := broken.Nested[len(broken.Nested)-1]
-						last.Calls = append(append([]c09Call{}, last.Calls...), c09Call{Field: nf.Name, Value: rawOf(bad)})
-						broken.Nested[len(broken.Nested)-1] = last
-						out = append(out, c09Program{Def: d.Name, Calls: append(append([]c09Call{}, base...), broken), Kind: "nested-violation", Invalid: f.Name + "." + nf.Name + ":" + bound})
-						break
+						broken.Nested[len(broken.Nested)-1] = b.prog
+						out = append(out, c09Program{Def: def, Calls: withBase(broken), Kind: kind, Invalid: f.Name + "." + b.where})
 					}
 				}
 			}
 		}
 		for _, mg := range merges {
-			if mg.Dest == d.Name {
-				out = append(out, c09MergePrograms(rt, m, mg, base)...)
+			if mg.Dest == def {
+				out = append(out, c09MergePrograms(rt, x, mg, base)...)
 			}
 		}
 		// sequences: 2-3 options, possibly the same twice
@@ -577,28 +774,65 @@ func drawC09Programs(rt *rapid.T, m *smodel.Model, copies map[string]string, mer
 			calls := append([]c09Call{}, base...)
 			for i := 0; i < n; i++ {
 				f := rapid.SampledFrom(driven).Draw(rt, "seqfield")
-				if call, ok := c09ValidCall(rt, m, f, 0); ok {
+				if call, ok := c09ValidCall(rt, x, def, f, 0); ok {
 					calls = append(calls, call)
 				}
 			}
-			out = append(out, c09Program{Def: d.Name, Calls: calls, Kind: "sequence"})
+			out = append(out, c09Program{Def: def, Calls: calls, Kind: "sequence"})
 		}
 	}
 	return out
 }
 
+// c09Bases are the reference objects of one case in one language: what an
+// empty program builds per definition (empty) and what the types' constructors
+// make (ctor: NewX() / X()).
+type c09Bases struct {
+	empty, ctor map[string]map[string]any
+}
+
 // c09Expected computes the document a valid program must build: the object
 // built by an empty program with each call's value written at its field, in
-// order. The target of a merged option lies below a path: the objects missing
-// on the way are the ones the types' constructors make (ctor).
-func c09Expected(empty, ctor map[string]map[string]any, p c09Program) map[string]any {
-	obj := deepCopyAny(empty[p.Def]).(map[string]any)
+// order. The target of a merged / rewritten option lies below a path: the
+// objects missing on the way are the ones the types' constructors make (ctor).
+// plain: the program describes a plain object (no builder involved): it starts
+// from what the type's constructor makes.
+func c09Expected(b c09Bases, p c09Program, plain bool) map[string]any {
+	base := b.empty[p.Def]
+	if plain {
+		base = b.ctor[p.Def]
+	}
+	obj, _ := deepCopyAny(base).(map[string]any)
+	if obj == nil {
+		obj = map[string]any{}
+	}
+	write := func(target map[string]any, c c09Call) {
+		switch c.Shape {
+		case "":
+			v, _ := smodel.ParseJSON(string(c.Value))
+			target[c.Field] = v
+		case "ref", "obj":
+			target[c.Field] = c09Expected(b, c.Nested[0], plain || c.Shape == "obj")
+		case "array", "obj-array":
+			var list []any
+			for _, n := range c.Nested {
+				list = append(list, c09Expected(b, n, plain || c.Shape == "obj-array"))
+			}
+			target[c.Field] = list
+		case "map", "obj-map":
+			mm := map[string]any{}
+			for i, n := range c.Nested {
+				mm[c.NestedKeys[i]] = c09Expected(b, n, plain || c.Shape == "obj-map")
+			}
+			target[c.Field] = mm
+		}
+	}
 	for _, c := range p.Calls {
 		target := obj
 		for i, step := range c.Path {
 			next, isObj := target[step].(map[string]any)
 			if !isObj {
-				made, _ := deepCopyAny(ctor[c.PathDefs[i]]).(map[string]any)
+				made, _ := deepCopyAny(b.ctor[c.PathDefs[i]]).(map[string]any)
 				if made == nil {
 					made = map[string]any{}
 				}
@@ -607,35 +841,44 @@ func c09Expected(empty, ctor map[string]map[string]any, p c09Program) map[string
 			}
 			target = next
 		}
-		switch c.Shape {
-		case "":
-			v, _ := smodel.ParseJSON(string(c.Value))
-			target[c.Field] = v
-		case "ref":
-			target[c.Field] = c09Expected(empty, ctor, c.Nested[0])
-		case "array":
-			var list []any
-			for _, n := range c.Nested {
-				list = append(list, c09Expected(empty, ctor, n))
+		if len(c.Args) > 0 {
+			for _, a := range c.Args {
+				write(target, a)
 			}
-			target[c.Field] = list
-		case "map":
-			mm := map[string]any{}
-			for i, n := range c.Nested {
-				mm[c.NestedKeys[i]] = c09Expected(empty, ctor, n)
-			}
-			target[c.Field] = mm
+			continue
 		}
+		write(target, c)
 	}
 	return obj
 }
 
-// c09UsesPaths: some call of the program goes through a path.
-func c09UsesPaths(p c09Program) (defs []string) {
-	for _, c := range p.Calls {
-		defs = append(defs, c.PathDefs...)
+// c09NeedsCtor lists the definitions whose constructor-made object the
+// expectation of the program rests on; c09HasPlain: some argument is a plain
+// object.
+func c09NeedsCtor(p c09Program, plain bool, defs map[string]bool) (hasPlain bool) {
+	if plain {
+		defs[p.Def] = true
 	}
-	return defs
+	var visit func(c c09Call)
+	visit = func(c c09Call) {
+		for _, d := range c.PathDefs {
+			defs[d] = true
+		}
+		for _, a := range c.Args {
+			visit(a)
+		}
+		isObj := strings.HasPrefix(c.Shape, "obj")
+		hasPlain = hasPlain || isObj
+		for _, n := range c.Nested {
+			if c09NeedsCtor(n, plain || isObj, defs) {
+				hasPlain = true
+			}
+		}
+	}
+	for _, c := range p.Calls {
+		visit(c)
+	}
+	return hasPlain
 }
 
 func deepCopyAny(v any) any {
@@ -656,39 +899,93 @@ func deepCopyAny(v any) any {
 	return v
 }
 
-func (p c09Program) build(caseID string, goStyle bool) e2.BuildProgram {
+// build turns the program into a driver program. Plain objects are passed as
+// their JSON (computed from the constructor-made object: bases).
+func (p c09Program) build(caseID string, goStyle bool, bases c09Bases) e2.BuildProgram {
 	name := p.Def
 	if goStyle {
 		name = caseID + "/" + p.Def + "Builder"
 	}
 	bp := e2.BuildProgram{Builder: name}
+	arg := func(c c09Call) e2.BuildArg {
+		switch c.Shape {
+		case "ref":
+			n := c.Nested[0].build(caseID, goStyle, bases)
+			return e2.BuildArg{Builder: &n}
+		case "array":
+			var list []e2.BuildProgram
+			for _, n := range c.Nested {
+				list = append(list, n.build(caseID, goStyle, bases))
+			}
+			return e2.BuildArg{Builders: list}
+		case "map":
+			mm := map[string]e2.BuildProgram{}
+			for i, n := range c.Nested {
+				mm[c.NestedKeys[i]] = n.build(caseID, goStyle, bases)
+			}
+			return e2.BuildArg{BuilderMap: mm}
+		case "obj":
+			return e2.BuildArg{JSON: string(rawOf(c09Expected(bases, c.Nested[0], true)))}
+		case "obj-array":
+			list := []any{}
+			for _, n := range c.Nested {
+				list = append(list, c09Expected(bases, n, true))
+			}
+			return e2.BuildArg{JSON: string(rawOf(list))}
+		case "obj-map":
+			mm := map[string]any{}
+			for i, n := range c.Nested {
+				mm[c.NestedKeys[i]] = c09Expected(bases, n, true)
+			}
+			return e2.BuildArg{JSON: string(rawOf(mm))}
+		}
+		return e2.BuildArg{JSON: string(c.Value)}
+	}
 	for _, c := range p.Calls {
 		call := e2.BuildCall{Option: c.Field}
 		if c.Option != "" {
 			call.Option = c.Option
 		}
-		switch c.Shape {
-		case "":
-			call.Args = []e2.BuildArg{{JSON: string(c.Value)}}
-		case "ref":
-			n := c.Nested[0].build(caseID, goStyle)
-			call.Args = []e2.BuildArg{{Builder: &n}}
-		case "array":
-			var list []e2.BuildProgram
-			for _, n := range c.Nested {
-				list = append(list, n.build(caseID, goStyle))
+		if len(c.Args) > 0 {
+			for _, a := range c.Args {
+				call.Args = append(call.Args, arg(a))
 			}
-			call.Args = []e2.BuildArg{{Builders: list}}
-		case "map":
-			mm := map[string]e2.BuildProgram{}
-			for i, n := range c.Nested {
-				mm[c.NestedKeys[i]] = n.build(caseID, goStyle)
-			}
-			call.Args = []e2.BuildArg{{BuilderMap: mm}}
+		} else {
+			call.Args = []e2.BuildArg{arg(c)}
 		}
 		bp.Calls = append(bp.Calls, call)
 	}
 	return bp
+}
+
+// c09At follows a path of fields in a JSON object.
+func c09At(obj map[string]any, path []string) (any, bool) {
+	var at any = obj
+	for _, step := range path {
+		mm, isObj := at.(map[string]any)
+		if !isObj {
+			return nil, false
+		}
+		at = mm[step]
+	}
+	return at, true
+}
+
+// c09MissingConstants: the required constants of the definition (literal
+// constants and references to constant objects) that obj does not hold.
+func c09MissingConstants(x *c09Ctx, def string, obj map[string]any) []string {
+	var out []string
+	for _, f := range x.fields(def) {
+		want, isConst := x.constOf(f.Type)
+		if !isConst || !f.Required {
+			continue
+		}
+		wv, _ := smodel.ParseJSON(string(want))
+		if _, same := smodel.JSONEqual(wv, obj[f.Name]); !same {
+			out = append(out, fmt.Sprintf("%s = %s (found %s)", f.Name, want, rawOf(obj[f.Name])))
+		}
+	}
+	return out
 }
 
 func c09CheckBatch(run *vlib.Run, cases []c09Case) (map[int][]vlib.Violation, error) {
@@ -702,104 +999,22 @@ func c09CheckBatch(run *vlib.Run, cases []c09Case) (map[int][]vlib.Violation, er
 		return nil, err
 	}
 	defer p.Close()
-	type ref struct {
-		caseIdx, progIdx int
-		empty            bool
-		def              string
-	}
-	var goReqs []e2.Request
-	var pyReqs []e2.PyRequest
-	var refs []ref
+	ctxs := make([]*c09Ctx, len(cases))
 	for i, c := range cases {
-		if !p.usable[i] {
-			continue
-		}
-		id := p.ids[i]
-		defs := map[string]bool{}
-		for _, prog := range c.Programs {
-			defs[prog.Def] = true
-		}
-		add := func(prog c09Program, r ref) {
-			g := prog.build(id, true)
-			py := prog.build(id, false)
-			goReqs = append(goReqs, e2.Request{ID: len(goReqs), Op: "build", Build: &g})
-			pyReqs = append(pyReqs, e2.PyRequest{ID: len(pyReqs), Op: "build", Module: id + ".builders." + pyModuleName(c.Schema.pkgOf(prog.Def)), Encoder: id + ".cog.encoder", Build: &py})
-			refs = append(refs, r)
-		}
-		// what an empty program builds, for every struct definition (nested ones too)
-		for _, d := range c.Schema.Model.Defs {
-			if d.Type.Kind == smodel.KStruct {
-				add(c09Program{Def: d.Name}, ref{caseIdx: i, empty: true, def: d.Name})
-			}
-		}
-		for j, prog := range c.Programs {
-			add(prog, ref{caseIdx: i, progIdx: j})
+		ctxs[i] = newC09Ctx(c.Schema.Model, c.Omitted)
+		if p.usable[i] {
+			count(run, "usable:"+c.Family, 1)
+		} else {
+			count(run, "unusable:"+c.Family, 1)
 		}
 	}
-	if len(refs) == 0 {
-		return out, nil
-	}
-	goResps, err := p.batch.Exec(goReqs)
-	if err != nil {
-		return nil, err
-	}
-	pyResps, err := p.py.Exec(pyReqs)
-	if err != nil {
-		return nil, err
-	}
-	// pass 1: the objects built by empty programs (Go: Build() may refuse an
-	// object whose required constrained fields are unset; then the constructor
-	// JSON is not observable through the builder: fall back to NewX())
-	emptyGo, emptyPy := map[int]map[string]map[string]any{}, map[int]map[string]map[string]any{}
-	emptyGoFromCtor := map[int]map[string]bool{}
-	var ctorReqs []e2.Request
 	type ctorRef struct {
 		caseIdx int
 		def     string
 	}
-	var ctorRefs []ctorRef
-	for k, r := range refs {
-		if !r.empty {
-			continue
-		}
-		if emptyGo[r.caseIdx] == nil {
-			emptyGo[r.caseIdx], emptyPy[r.caseIdx] = map[string]map[string]any{}, map[string]map[string]any{}
-		}
-		if goResps[k].Encoded != "" {
-			v, _ := smodel.ParseJSON(goResps[k].Encoded)
-			emptyGo[r.caseIdx][r.def], _ = v.(map[string]any)
-		} else if goResps[k].Held != "" {
-			// Build() refuses the object (required constrained fields unset):
-			// the driver reads it out of the builder
-			v, _ := smodel.ParseJSON(goResps[k].Held)
-			emptyGo[r.caseIdx][r.def], _ = v.(map[string]any)
-		} else if key, ok := p.goKey(r.caseIdx, r.def); ok {
-			ctorReqs = append(ctorReqs, e2.Request{ID: len(ctorReqs), Key: key, Op: "default"})
-			ctorRefs = append(ctorRefs, ctorRef{r.caseIdx, r.def})
-		}
-		if pyResps[k].Encoded != "" {
-			v, _ := smodel.ParseJSON(pyResps[k].Encoded)
-			emptyPy[r.caseIdx][r.def], _ = v.(map[string]any)
-		}
-	}
-	if len(ctorReqs) > 0 {
-		resps, err := p.batch.Exec(ctorReqs)
-		if err != nil {
-			return nil, err
-		}
-		for k, r := range resps {
-			if r.Encoded != "" {
-				v, _ := smodel.ParseJSON(r.Encoded)
-				emptyGo[ctorRefs[k].caseIdx][ctorRefs[k].def], _ = v.(map[string]any)
-				if emptyGoFromCtor[ctorRefs[k].caseIdx] == nil {
-					emptyGoFromCtor[ctorRefs[k].caseIdx] = map[string]bool{}
-				}
-				emptyGoFromCtor[ctorRefs[k].caseIdx][ctorRefs[k].def] = true
-			}
-		}
-	}
-	// what the types' constructors make, for the definitions merged options go
-	// through (NewX() / X())
+	// pass 0: what the types' constructors make (NewX() / X()), for every
+	// struct definition: the objects nil guards must create on the way to the
+	// target of a merged / rewritten option, and what plain objects start from
 	ctorGo, ctorPy := map[int]map[string]map[string]any{}, map[int]map[string]map[string]any{}
 	{
 		var gReqs []e2.Request
@@ -810,19 +1025,17 @@ func c09CheckBatch(run *vlib.Run, cases []c09Case) (map[int][]vlib.Violation, er
 				continue
 			}
 			ctorGo[i], ctorPy[i] = map[string]map[string]any{}, map[string]map[string]any{}
-			seen := map[string]bool{}
-			for _, mg := range c.Merges {
-				for _, def := range mg.PathDefs {
-					if seen[def] {
-						continue
-					}
-					seen[def] = true
-					if key, ok := p.goKey(i, def); ok {
-						gReqs = append(gReqs, e2.Request{ID: len(gReqs), Key: key, Op: "default"})
-						gRefs = append(gRefs, ctorRef{i, def})
-					}
-					pReqs = append(pReqs, e2.PyRequest{ID: len(pReqs), Op: "default", Module: p.ids[i] + ".models." + pyModuleName(c.Schema.pkgOf(def)), Encoder: p.ids[i] + ".cog.encoder", Class: def})
-					pRefs = append(pRefs, ctorRef{i, def})
+			for _, d := range c.Schema.Model.Defs {
+				if ctxs[i].structOf(d.Name) == nil {
+					continue
+				}
+				if key, ok := p.goKey(i, d.Name); ok {
+					gReqs = append(gReqs, e2.Request{ID: len(gReqs), Key: key, Op: "default"})
+					gRefs = append(gRefs, ctorRef{i, d.Name})
+				}
+				if !c.GoOnly {
+					pReqs = append(pReqs, e2.PyRequest{ID: len(pReqs), Op: "default", Module: p.ids[i] + ".models." + pyModuleName(c.Schema.pkgOf(d.Name)), Encoder: p.ids[i] + ".cog.encoder", Class: d.Name})
+					pRefs = append(pRefs, ctorRef{i, d.Name})
 				}
 			}
 		}
@@ -851,41 +1064,179 @@ func c09CheckBatch(run *vlib.Run, cases []c09Case) (map[int][]vlib.Violation, er
 			}
 		}
 	}
-	// the constants an initialize veneer writes are in the object an empty
-	// program builds
+	// an alias object is the object it stands for: where cog emits no
+	// constructor for it (two-hop aliases), the aliased type's is used
+	for i := range cases {
+		for _, d := range cases[i].Schema.Model.Defs {
+			if p.usable[i] && ctorGo[i][d.Name] == nil && ctxs[i].structOf(d.Name) != nil && ctxs[i].root(d.Name) != d.Name {
+				ctorGo[i][d.Name] = ctorGo[i][ctxs[i].root(d.Name)]
+			}
+		}
+	}
+	type ref struct {
+		caseIdx, progIdx int
+		empty            bool
+		def              string
+		goIdx, pyIdx     int // index of the request, -1: not driven in that language
+		needs            map[string]bool
+	}
+	var goReqs []e2.Request
+	var pyReqs []e2.PyRequest
+	var refs []ref
 	for i, c := range cases {
 		if !p.usable[i] {
 			continue
 		}
-		for _, mg := range c.Merges {
-			if mg.InitField == "" {
-				continue
+		id := p.ids[i]
+		add := func(prog c09Program, r ref) {
+			r.goIdx, r.pyIdx = -1, -1
+			r.needs = map[string]bool{}
+			hasPlain := c09NeedsCtor(prog, false, r.needs)
+			goOK := true
+			for def := range r.needs {
+				if ctorGo[i][def] == nil {
+					goOK = false
+					note(run, "no constructor-made %s (%s schema, family %s, aliases %v): %s", def, c.Schema.Format, c.Family, c.GoOnly, short200(string(rawOf(c.Schema.Model.Def(def)))))
+				}
 			}
-			want, _ := smodel.ParseJSON(string(mg.InitValue))
-			for lang, empties := range map[string]map[string]map[string]any{"go": emptyGo[i], "python": emptyPy[i]} {
-				obj := empties[mg.Dest]
-				if obj == nil || (lang == "go" && emptyGoFromCtor[i][mg.Dest]) {
+			if goOK {
+				g := prog.build(id, true, c09Bases{ctor: ctorGo[i]})
+				r.goIdx = len(goReqs)
+				goReqs = append(goReqs, e2.Request{ID: len(goReqs), Op: "build", Build: &g})
+			} else {
+				count(run, "no_reference_object:go", 1)
+			}
+			switch {
+			case c.GoOnly:
+				// alias objects: the generated Python constructors do not work at
+				// all (see c09Objects): the region is excluded for Python
+				count(run, "python_not_driven:alias-objects", 1)
+			case hasPlain:
+				// the shared Python driver passes JSON values or builders, not objects
+				count(run, "python_not_driven:plain-object-argument", 1)
+			default:
+				py := prog.build(id, false, c09Bases{ctor: ctorPy[i]})
+				r.pyIdx = len(pyReqs)
+				pyReqs = append(pyReqs, e2.PyRequest{ID: len(pyReqs), Op: "build", Module: id + ".builders." + pyModuleName(c.Schema.pkgOf(prog.Def)), Encoder: id + ".cog.encoder", Build: &py})
+			}
+			refs = append(refs, r)
+		}
+		// what an empty program builds, for every definition with a builder (nested ones too)
+		for _, def := range ctxs[i].builderDefs() {
+			add(c09Program{Def: def}, ref{caseIdx: i, empty: true, def: def})
+		}
+		for j, prog := range c.Programs {
+			add(prog, ref{caseIdx: i, progIdx: j})
+		}
+	}
+	if len(refs) == 0 {
+		return out, nil
+	}
+	var goResps []e2.Response
+	var pyResps []e2.PyResponse
+	if len(goReqs) > 0 {
+		if goResps, err = p.batch.Exec(goReqs); err != nil {
+			return nil, err
+		}
+	}
+	if len(pyReqs) > 0 {
+		if pyResps, err = p.py.Exec(pyReqs); err != nil {
+			return nil, err
+		}
+	}
+	// pass 1: the objects built by empty programs (Go: Build() may refuse an
+	// object whose required constrained fields are unset; the driver then reads
+	// it out of the builder; failing that: NewX())
+	emptyGo, emptyPy := map[int]map[string]map[string]any{}, map[int]map[string]map[string]any{}
+	emptyGoFromCtor := map[int]map[string]bool{}
+	for _, r := range refs {
+		if !r.empty {
+			continue
+		}
+		if emptyGo[r.caseIdx] == nil {
+			emptyGo[r.caseIdx], emptyPy[r.caseIdx] = map[string]map[string]any{}, map[string]map[string]any{}
+			emptyGoFromCtor[r.caseIdx] = map[string]bool{}
+		}
+		if r.goIdx >= 0 {
+			resp := goResps[r.goIdx]
+			switch {
+			case resp.Encoded != "":
+				v, _ := smodel.ParseJSON(resp.Encoded)
+				emptyGo[r.caseIdx][r.def], _ = v.(map[string]any)
+			case resp.Held != "":
+				// Build() refuses the object (required constrained fields unset):
+				// the driver reads it out of the builder
+				v, _ := smodel.ParseJSON(resp.Held)
+				emptyGo[r.caseIdx][r.def], _ = v.(map[string]any)
+			case !resp.Missing && ctorGo[r.caseIdx][r.def] != nil:
+				emptyGo[r.caseIdx][r.def] = ctorGo[r.caseIdx][r.def]
+				emptyGoFromCtor[r.caseIdx][r.def] = true
+			}
+		}
+		if r.pyIdx >= 0 && pyResps[r.pyIdx].Encoded != "" {
+			v, _ := smodel.ParseJSON(pyResps[r.pyIdx].Encoded)
+			emptyPy[r.caseIdx][r.def], _ = v.(map[string]any)
+		}
+	}
+	// the constants: "constructor constants are always present". The object an
+	// empty program builds holds the required constants of its definition
+	// (literal constants and references to constant objects); and, below the
+	// path of a merge_into veneer, those of the merged builder's object. The
+	// constants an initialize veneer writes are there too.
+	for i, c := range cases {
+		if !p.usable[i] {
+			continue
+		}
+		x := ctxs[i]
+		langs := []struct {
+			lang    string
+			empties map[string]map[string]any
+		}{{"go", emptyGo[i]}, {"python", emptyPy[i]}}
+		for _, l := range langs {
+			for _, def := range x.builderDefs() {
+				obj := l.empties[def]
+				if obj == nil || (l.lang == "go" && emptyGoFromCtor[i][def]) {
 					continue
 				}
-				var at any = obj
-				for _, step := range append(append([]string{}, mg.Path...), mg.InitField) {
-					mm, _ := at.(map[string]any)
-					at = mm[step]
+				count(run, "constants_checked:"+l.lang, 1)
+				if missing := c09MissingConstants(x, def, obj); len(missing) > 0 {
+					out[i] = append(out[i], vlib.V(fmt.Sprintf("constant-missing:%s:%s:constructor", l.lang, c.Schema.Format), "%s schema, builder of %s: the object an empty program builds lacks the constant %s: %s", c.Schema.Format, def, strings.Join(missing, ", "), short200(string(rawOf(obj)))))
 				}
-				count(run, "initialize_checked:"+lang, 1)
+			}
+			for _, mg := range c.Merges {
+				obj := l.empties[mg.Dest]
+				if obj == nil || (l.lang == "go" && emptyGoFromCtor[i][mg.Dest]) {
+					continue
+				}
+				if len(c09MissingConstants(x, mg.Source, map[string]any{})) > 0 {
+					// the merged builder's constructor held constants: merge_into keeps them
+					count(run, "merged_constants_checked:"+l.lang, 1)
+					at, _ := c09At(obj, mg.Path)
+					below, _ := at.(map[string]any)
+					if missing := c09MissingConstants(x, mg.Source, below); len(missing) > 0 {
+						out[i] = append(out[i], vlib.V(fmt.Sprintf("constant-missing:%s:%s:merged-constructor", l.lang, c.Schema.Format), "%s schema, builder of %s with the builder of %s merged under %s: the object an empty program builds lacks the merged builder's constant %s: %s", c.Schema.Format, mg.Dest, mg.Source, strings.Join(mg.Path, "."), strings.Join(missing, ", "), short200(string(rawOf(obj)))))
+					}
+				}
+				if mg.InitField == "" {
+					continue
+				}
+				want, _ := smodel.ParseJSON(string(mg.InitValue))
+				at, _ := c09At(obj, append(append([]string{}, mg.Path...), mg.InitField))
+				count(run, "initialize_checked:"+l.lang, 1)
 				if _, same := smodel.JSONEqual(want, at); !same {
-					out[i] = append(out[i], vlib.V(fmt.Sprintf("initialize-not-applied:%s:%s", lang, c.Schema.Format), "%s schema, builder of %s: the constructor was told to set %s.%s = %s, an empty program builds %s", c.Schema.Format, mg.Dest, strings.Join(mg.Path, "."), mg.InitField, mg.InitValue, short200(string(rawOf(obj)))))
+					out[i] = append(out[i], vlib.V(fmt.Sprintf("initialize-not-applied:%s:%s", l.lang, c.Schema.Format), "%s schema, builder of %s: the constructor was told to set %s.%s = %s, an empty program builds %s", c.Schema.Format, mg.Dest, strings.Join(mg.Path, "."), mg.InitField, mg.InitValue, short200(string(rawOf(obj)))))
 				}
 			}
 		}
 	}
 	// pass 2: the programs
-	for k, r := range refs {
+	for _, r := range refs {
 		if r.empty {
 			continue
 		}
 		i := r.caseIdx
 		c := cases[i]
+		x := ctxs[i]
 		prog := c.Programs[r.progIdx]
 		f := string(c.Schema.Format)
 		tag := nestedTag(c.Schema)
@@ -896,11 +1247,16 @@ func c09CheckBatch(run *vlib.Run, cases []c09Case) (map[int][]vlib.Violation, er
 		type outcome struct {
 			lang, encoded, failure, where, noOption, argErr, panicMsg string
 			missing                                                   bool
-			empty, ctor                                               map[string]map[string]any
+			bases                                                     c09Bases
 		}
-		outcomes := []outcome{
-			{lang: "go", encoded: goResps[k].Encoded, failure: goResps[k].BuildErr, where: "build", noOption: goResps[k].NoSuchOption, argErr: goResps[k].ArgErr, panicMsg: goResps[k].Panic, missing: goResps[k].Missing, empty: emptyGo[i], ctor: ctorGo[i]},
-			{lang: "python", encoded: pyResps[k].Encoded, failure: pyResps[k].Error, where: pyResps[k].RaisedIn, noOption: pyResps[k].NoSuchOption, empty: emptyPy[i], ctor: ctorPy[i]},
+		var outcomes []outcome
+		if r.goIdx >= 0 {
+			g := goResps[r.goIdx]
+			outcomes = append(outcomes, outcome{lang: "go", encoded: g.Encoded, failure: g.BuildErr, where: "build", noOption: g.NoSuchOption, argErr: g.ArgErr, panicMsg: g.Panic, missing: g.Missing, bases: c09Bases{empty: emptyGo[i], ctor: ctorGo[i]}})
+		}
+		if r.pyIdx >= 0 {
+			py := pyResps[r.pyIdx]
+			outcomes = append(outcomes, outcome{lang: "python", encoded: py.Encoded, failure: py.Error, where: py.RaisedIn, noOption: py.NoSuchOption, bases: c09Bases{empty: emptyPy[i], ctor: ctorPy[i]}})
 		}
 		for _, o := range outcomes {
 			switch {
@@ -912,6 +1268,7 @@ func c09CheckBatch(run *vlib.Run, cases []c09Case) (map[int][]vlib.Violation, er
 				continue
 			case o.argErr != "":
 				count(run, "argument_not_passable:"+o.lang, 1)
+				count(run, "argument_not_passable:"+o.lang+":"+prog.Kind, 1)
 				note(run, "argument not passable (%s): %s", o.lang, o.argErr)
 				continue
 			case o.panicMsg != "":
@@ -919,7 +1276,7 @@ func c09CheckBatch(run *vlib.Run, cases []c09Case) (map[int][]vlib.Violation, er
 				continue
 			}
 			if run != nil {
-				run.Eval(vlib.HashBytes([]byte(c.Schema.source()), rawOf(prog), []byte(o.lang)), "program:"+prog.Kind, "lang:"+o.lang)
+				run.Eval(vlib.HashBytes([]byte(c.Schema.source()), rawOf(prog), []byte(o.lang)), "program:"+prog.Kind, "lang:"+o.lang, "family:"+c.Family)
 			}
 			count(run, "documents", 1)
 			count(run, "disagreements_checked", 1)
@@ -929,7 +1286,7 @@ func c09CheckBatch(run *vlib.Run, cases []c09Case) (map[int][]vlib.Violation, er
 				}
 				continue
 			}
-			if o.failure != "" && o.where == "build" && c09HasUndrivenRequired(c.Schema.Model, prog.Def) {
+			if o.failure != "" && o.where == "build" && c09HasUndrivenRequired(x, prog.Def) {
 				// a required field the harness cannot set (union, anonymous struct,
 				// nested collection...) keeps its zero value: Build() may refuse it
 				count(run, "object_not_completable:"+o.lang, 1)
@@ -939,13 +1296,13 @@ func c09CheckBatch(run *vlib.Run, cases []c09Case) (map[int][]vlib.Violation, er
 				bad(fmt.Sprintf("valid-rejected:%s:%s:%s:%s%s", o.lang, f, prog.Kind, o.where, tag), "%s: valid arguments are refused (%s): %s", o.lang, o.where, firstLine(o.failure))
 				continue
 			}
-			if o.empty[prog.Def] == nil {
+			if o.bases.empty[prog.Def] == nil {
 				count(run, "no_reference_object:"+o.lang, 1)
 				continue
 			}
 			usable := true
-			for _, def := range c09UsesPaths(prog) {
-				if o.ctor[def] == nil {
+			for def := range r.needs {
+				if o.bases.ctor[def] == nil {
 					usable = false
 				}
 			}
@@ -953,14 +1310,41 @@ func c09CheckBatch(run *vlib.Run, cases []c09Case) (map[int][]vlib.Violation, er
 				count(run, "no_reference_object:"+o.lang, 1)
 				continue
 			}
-			want := c09Expected(o.empty, o.ctor, prog)
-			got, perr := smodel.ParseJSON(o.encoded)
-			if perr != nil {
+			want := c09Expected(o.bases, prog, false)
+			gotAny, perr := smodel.ParseJSON(o.encoded)
+			got, isObj := gotAny.(map[string]any)
+			if perr != nil || !isObj {
 				bad(fmt.Sprintf("built-not-json:%s:%s", o.lang, f), "%s", o.encoded)
 				continue
 			}
 			if d, same := smodel.JSONEqual(want, got); !same {
 				bad(fmt.Sprintf("wrong-object:%s:%s:%s%s", o.lang, f, prog.Kind, tag), "%s: the built object is not the default object with the options' targets set: %s (built %s, expected %s)", o.lang, d, short200(o.encoded), short200(string(rawOf(want))))
+				continue
+			}
+			// constructor constants are always present: in the object itself, and
+			// below the path of a merged builder as long as no option of the
+			// program replaced an object on the way
+			if missing := c09MissingConstants(x, prog.Def, got); len(missing) > 0 {
+				bad(fmt.Sprintf("constant-missing:%s:%s:%s", o.lang, f, prog.Kind), "%s: the built object lacks the constant %s: %s", o.lang, strings.Join(missing, ", "), short200(o.encoded))
+			}
+			for _, mg := range c.Merges {
+				if mg.Dest != prog.Def || len(c09MissingConstants(x, mg.Source, map[string]any{})) == 0 {
+					continue
+				}
+				replaced := false
+				for _, call := range prog.Calls {
+					if len(call.Path) == 0 && call.Field == mg.Path[0] {
+						replaced = true
+					}
+				}
+				if replaced {
+					continue
+				}
+				at, _ := c09At(got, mg.Path)
+				below, _ := at.(map[string]any)
+				if missing := c09MissingConstants(x, mg.Source, below); len(missing) > 0 {
+					bad(fmt.Sprintf("constant-missing:%s:%s:%s:merged", o.lang, f, prog.Kind), "%s: below %s the built object lacks the constant of the merged builder %s: %s", o.lang, strings.Join(mg.Path, "."), strings.Join(missing, ", "), short200(o.encoded))
+				}
 			}
 		}
 	}
@@ -972,34 +1356,33 @@ func c09CheckBatch(run *vlib.Run, cases []c09Case) (map[int][]vlib.Violation, er
 
 // c09HasUndrivenRequired tells whether the definition (or a struct it must
 // nest) has a required field no option call of the harness sets.
-func c09HasUndrivenRequired(m *smodel.Model, def string) bool {
-	return !c09Completable(m, def, map[string]bool{})
+func c09HasUndrivenRequired(x *c09Ctx, def string) bool {
+	return !c09Completable(x, def, map[string]bool{})
 }
 
 // c09Completable: every required, non-constant field of the definition can be
 // given a valid value through its option (nested objects included).
-func c09Completable(m *smodel.Model, def string, visiting map[string]bool) bool {
+func c09Completable(x *c09Ctx, def string, visiting map[string]bool) bool {
 	if visiting[def] {
 		return true // recursion only goes through optional fields / collections
 	}
 	visiting[def] = true
 	defer delete(visiting, def)
-	d := m.Def(def)
-	if d == nil || d.Type.Kind != smodel.KStruct {
+	if x.structOf(def) == nil {
 		return false
 	}
-	for _, f := range d.Type.Fields {
-		if !f.Required || f.Type.Const != nil {
+	for _, f := range x.fields(def) {
+		if _, isConst := x.constOf(f.Type); !f.Required || isConst {
 			continue
 		}
-		if rt := m.Resolve(f.Type); rt.Kind == smodel.KEnum && len(rt.Members) < 2 {
+		if rt := x.m.Resolve(f.Type); rt.Kind == smodel.KEnum && len(rt.Members) < 2 {
 			continue
 		}
-		shape, target, ok := c09SupportedIn(m, f, visiting)
+		shape, target, ok := c09SupportedIn(x, f, visiting)
 		if !ok {
 			return false
 		}
-		if shape == "ref" && !c09Completable(m, target, visiting) {
+		if (shape == "ref" || shape == "obj") && !c09Completable(x, target, visiting) {
 			return false
 		}
 	}
@@ -1034,39 +1417,76 @@ func c09GenConfig(f smodel.Format) smodel.GenConfig {
 	return cfg
 }
 
+// c09Families: the weights of the model / veneer families (of 16).
+var c09Families = []string{
+	"chain", "rewrite", "veneers", "objects",
+	"chain", "rewrite", "veneers", "objects",
+	"chain", "rewrite", "veneers", "objects",
+	"chain", "rewrite", "veneers", "none",
+}
+
+// drawC09Case draws one schema, what its family does to it, and its programs.
+func drawC09Case(rt *rapid.T) c09Case {
+	f := rapid.SampledFrom(smodel.Formats).Draw(rt, "format")
+	cfg := c09GenConfig(f)
+	family := rapid.SampledFrom(c09Families).Draw(rt, "family")
+	switch family {
+	case "chain":
+		cfg.RefChain, cfg.Dense = true, false
+	case "rewrite", "objects":
+		// mostly a handful of small structs: what matters there are the fields of
+		// the objects referred to (and a good part of the dense models do not
+		// compile: the listed nested-collection findings of C02)
+		cfg.Dense = rapid.IntRange(0, 2).Draw(rt, "dense") == 0
+	}
+	sc := drawSchemaCase(rt, cfg, 0)
+	c := c09Case{Family: family}
+	rules := newC09Rules()
+	var copies map[string]string
+	x := newC09Ctx(sc.Model, nil)
+	switch family {
+	case "chain", "veneers":
+		c09AddConstantObjects(rt, &sc)
+		copies, c.Merges = drawC09Veneers(rt, sc, x, rules)
+	case "rewrite":
+		drawC09Rewrites(rt, &sc, x, rules)
+	case "objects":
+		c.GoOnly = c09AddAliases(rt, &sc, x)
+		c.Omitted = drawC09Omitted(rt, sc, x)
+		copies, c.Merges = drawC09Veneers(rt, sc, x, rules)
+		c09OmitRules(sc, c.Omitted, rules)
+	}
+	sc.Veneers = rules.files()
+	c.Schema = sc
+	c.Programs = drawC09Programs(rt, x, copies, c.Merges)
+	return c
+}
+
 func TestC09(t *testing.T) {
 	run := vlib.Begin(t, "C09")
 	defer run.Finish(t)
 	run.Describe(
-		"Batches of K schema models (K=4 quick, 8 thorough) per rapid case, in the three input formats, dense in bounded scalars, references to structs (nested builders), arrays and maps of struct references, arrays / maps of scalars, enums, constants, defaults, nullable scalars; cog generates Go and Python types + builders (no veneers), the Go packages are compiled and the Python modules imported. For every struct definition a family of builder PROGRAMS is drawn and executed through reflective drivers (Go: NewXBuilder().Option(args...).Build(); Python: X().option(args...).build()): the baseline (every required field set to a valid value); one program per option with a valid argument (scalars, lists, maps, nested builders built by their own programs, lists and maps of nested builders); one per numeric / length bound with an argument violating it by one unit; one with a violation inside a nested builder; a sequence of 2-3 options (possibly the same twice, last write wins). Oracle: a valid program builds exactly the object an EMPTY program builds with each call's value written at the option's field (JSON equality with exact numbers, so nothing else may change and constructor constants stay); a program holding a violation is reported (Go: Build() returns an error; Python: the option call or build() raises); a valid program is never refused. Non-trivial: every executed (schema, program, language).",
-		"half of the schemas get a veneer that copies one constrained option per object and renames the copy's argument; the copy must behave like the original (and the original must keep working); otherwise every option corresponds to one field of the object; options of unions, anonymous structs, `any`, nested collections and constants are not driven (counted)",
-		"a third of the models are reference chains (Entry.inner.inner); there, and wherever an object refers to a completable object of its package, a merge_into veneer copies the options of the object one or two references away into the ancestor's builder (renamed), 2/3 of the time with an initialize veneer writing a constant below the same path from the constructor; programs call each merged option on a fresh builder, after an option replacing an ancestor of its target, before one, and with a bound-violating argument. Expected object: the value written at the PATH, objects missing on the way being what the types' constructors make (nil guards); the initialize constant must be in the object an empty program builds. Veneers whose constructor would create an object that is invalid as constructed (required bounded field) are not drawn",
+		"Batches of K schema models (K=8 quick, 10 thorough) per rapid case, in the three input formats, dense in bounded scalars, references to structs (nested builders), arrays and maps of struct references, arrays / maps of scalars, enums, constants, defaults, nullable scalars; cog generates Go and Python types + builders, the Go packages are compiled and the Python modules imported. For every definition with a builder a family of builder PROGRAMS is drawn and executed through reflective drivers (Go: NewXBuilder().Option(args...).Build(); Python: X().option(args...).build()): the baseline (every required field set to a valid value); one program per option with a valid argument (scalars, lists, maps, nested builders built by their own programs, lists and maps of nested builders); one per numeric / length bound with an argument violating it by one unit; one with a violation inside a nested builder; a sequence of 2-3 options (possibly the same twice, last write wins). Oracle: a valid program builds exactly the object an EMPTY program builds with each call's value written at the option's target (JSON equality with exact numbers, so nothing else may change); a program holding a violation is reported (Go: Build() returns an error; Python: the option call or build() raises); a valid program is never refused; CONSTANTS: the object an empty program builds, and every object a valid program builds, holds the required constants of its definition (literal constants and fields referring to a constant object), and below the path of a merged builder those of the merged builder's object (unless the program replaced an object on that path). Non-trivial: every executed (schema, program, language). Each model belongs to one family (of 16: 4 chain, 4 veneers, 4 rewrite, 3 objects, 1 without veneers; rewrite and objects models are dense like the others a third of the time, else a handful of small structs):",
+		"veneers (and chain): a veneer copies one constrained option per object and renames the copy's argument; the copy must behave like the original (and the original must keep working). Half of the struct definitions get a required field referring to a CONSTANT OBJECT added to the model (`objectType: OptionsKind`, `OptionsKind: \"options-kind\"`): only builder constructors set those",
+		"chain: reference chains (Entry.inner.inner); there, and in the veneers / objects families wherever an object refers to a completable object of its package (through required or OPTIONAL fields, directly or through an alias object), a merge_into veneer copies the options of the object one or two references away into the ancestor's builder (renamed), 2/3 of the time with an initialize veneer writing a constant below the same path from the constructor; programs call each merged option on a fresh builder, after an option replacing an ancestor of its target, before one, and with a bound-violating argument. Expected object: the value written at the PATH, objects missing on the way being what the types' constructors make (nil guards); the initialize constant and the constants of the merged builder must be in the object an empty program builds. Veneers whose constructor would create an object that is invalid as constructed (required bounded field) are not drawn",
+		"rewrite: the entry point gets references to two new small structs (Widget, Gadget) or to other structs of the model; the structs referred to get 3-5 more fields first (bounded / plain scalars, lists and maps of scalars, collections of collections of bounded scalars, in drawn order, so that constrained scalars sit next to unconstrained collections); options of fields referring to a struct are then rewritten by struct_fields_as_arguments (all fields, or an explicit list holding every required field, a drawn part of the optional ones and sometimes constants, listed in any order) or, for optional fields, struct_fields_as_options. Programs: the rewritten option with valid arguments (each argument kind: scalars, enums, lists, maps, nested builders, lists / maps of builders), twice with other values (last write wins per field), with one argument violating one bound, with a violation inside a nested builder argument; each per-field option alone after the ones of the required fields, and with a violating argument; the rewritten option also takes part in baselines, sequences and nested programs. Expected object: each argument written at path.field, the object at the path created by a nil guard when missing, everything else as an empty program leaves it. Arguments whose object refers back to the builder's own are left out of the explicit list (the programs would nest for ever)",
+		"objects (Go only): the model gets ALIAS objects (`XAlias: X`, 1/3 of the time a second hop `XAlias2: XAlias` used from optional fields / collections only) and part of the references to X are redirected to them; an `omit` veneer removes the builders of a drawn half of the referred definitions, so that their options take PLAIN OBJECTS (single, lists, maps): these are passed as JSON computed from what the type's constructor makes plus the nested program's values; violations are placed inside the plain object and inside an object it refers to: Build() of the parent is then the only place that can report them (its Validate() has to reach through fields typed by the struct, by an alias of it, lists and maps of either). Python is not driven there: the Python constructors generated for alias objects call a string (`LinkAlias: typing.TypeAlias = 'Link'`; `LinkAlias()` raises TypeError) and the shared Python driver cannot pass objects (counted: python_not_driven:*)",
+		"otherwise every option corresponds to one field of the object; options of unions, anonymous structs, `any`, nested collections of objects and constants are not driven (counted)",
+		"not generated because cog's output does not compile there (reported, outside this property): an OPTIONAL field referring to a constant object (Go option typed by a constant), a builder for a two-hop alias (NewXAlias2 undefined: two-hop aliases always have their builder omitted and are never required fields)",
 		"empty lists / maps are not used as arguments (Go omitempty hides them: listed under C01)",
 		"field names avoid keywords of the target languages (C02's hostile-names finding)",
 	)
 	if vlib.RunReplay(t, run, c09Check) {
 		return
 	}
-	k := 4
+	k := 8
 	if vlib.Thorough() {
-		k = 8
+		k = 10
 	}
 	rapid.Check(t, func(rt *rapid.T) {
 		var cases []c09Case
 		for i := 0; i < k; i++ {
-			f := rapid.SampledFrom(smodel.Formats).Draw(rt, "format")
-			cfg := c09GenConfig(f)
-			chain := rapid.IntRange(0, 2).Draw(rt, "refchain") == 0
-			if chain {
-				cfg.RefChain, cfg.Dense = true, false
-			}
-			sc := drawSchemaCase(rt, cfg, 0)
-			var copies map[string]string
-			var merges []c09Merge
-			if chain || rapid.Bool().Draw(rt, "veneers") {
-				sc.Veneers, copies, merges = drawC09Veneers(rt, sc)
-			}
-			cases = append(cases, c09Case{Schema: sc, Programs: drawC09Programs(rt, sc.Model, copies, merges), Merges: merges})
+			cases = append(cases, drawC09Case(rt))
 		}
 		res, err := c09CheckBatch(run, cases)
 		if err != nil {
@@ -1075,9 +1495,9 @@ func TestC09(t *testing.T) {
 		}
 		for i, c := range cases {
 			run.Label(c.Schema.Model.Features()...)
-			run.Label("input:" + string(c.Schema.Format))
+			run.Label("input:"+string(c.Schema.Format), "family:"+c.Family)
 			if i == 0 && len(c.Programs) > 1 {
-				run.Sample(map[string]any{"format": c.Schema.Format, "program": c.Programs[len(c.Programs)/2]})
+				run.Sample(map[string]any{"format": c.Schema.Format, "family": c.Family, "program": c.Programs[len(c.Programs)/2]})
 			}
 		}
 		for i := range cases {
@@ -1089,5 +1509,4 @@ func TestC09(t *testing.T) {
 	})
 	e2Health(run)
 	_ = sort.Strings
-	_ = fmt.Sprint
 }
